@@ -981,8 +981,12 @@ def main():
         case = rp['case']
         case.pop('fail_at_op', None)
         check_cases([case], R)
-        print(json.dumps(R.d['property_failures'][:3], indent=1,
-                         default=str)[:6000])
+        for f in R.d['property_failures'][:3]:
+            print(json.dumps({k: f[k] for k in ('key', 'demand', 'observed')},
+                             indent=1, default=str)[:3000])
+            print('failing operation index:', f['case'].get('fail_at_op'))
+        for d in R.d['disagreements'][:2]:
+            print('model/implementation disagree at', d['where'])
         sys.exit(1 if R.d['property_failures'] else 0)
     rng = random.Random(a.seed * 7919 + 16)
     n = 70 if a.tier == 'quick' else 1200
@@ -998,7 +1002,7 @@ def main():
         rng2 = random.Random(a.seed + 12345)
         before = len(R.d['property_failures'])
         extra = [gen_case(rng2, big=True, fam=FAMILIES[i % len(FAMILIES)])
-                 for i in range(150)]
+                 for i in range(60)]
         check_cases(extra, R, 99)
         R.d['search'] = {'extra_cases': len(extra),
                          'found': len(R.d['property_failures']) - before}
